@@ -5,7 +5,7 @@ from checklib import Scenario
 
 RULE = ("per type: all boundary values, single-bit and power-of-ten neighbours and pseudo-random values (float/double: bit "
         "patterns incl. NaN, infinities, subnormals, zeros), every case variant of the boolean words; each value is set with "
-        "the typed setter, read with the matching getter, then the object is written, read back and read again; "
+        "the typed setter, read with the matching getter, then the object is written (in half of the scenarios over a longer file saved before), read back and read again; "
         "the float/double expectations come from an exact rational model of correctly rounded printf/strtod "
         "(tools/floatoracle.py); distinct by value; thorough tier: EVERY float bit pattern, every int32 and every uint32 "
         "through setter and getter in-process (harness/sweep.c, 3 x 2^32 round trips, coverage.exhaustive_32bit); quick tier: 57 slices")
@@ -55,18 +55,22 @@ BOOLS = [v for w in (b"yes", b"no", b"true", b"false") for v in case_variants(w)
 
 def oracle(s, ilines):
     """set/get (directly and after write+read) returns exactly the stored value"""
-    want = None
+    want = None; prev = None
     for c, l in zip(s.cmds, ilines):
         t = c.split()
+        if c.startswith("get 1 string") and prev and prev[0] == "get 0 string" + c[12:] and prev[1] != l:
+            return "%s: the text stored in the object is %s, after writing and reading back %s" % (c[:60], prev[1], l)
+        prev = (c, l)
         if t[0] == "set":
             kd = t[2]
+            if kd == "string": want = None; continue
             if kd in ("float", "double"): want = ("bits", int(t[6]), 32 if kd == "float" else 64)
             elif kd == "bool":
                 w = (bytes.fromhex(t[5][1:])).lower()
                 if w not in (b"1", b"0", b"yes", b"no", b"true", b"false"): continue      # a refused call: the stored value stays
                 want = ("b", 1 if w in (b"1", b"yes", b"true") else 0)
             else: want = ("z", int(t[6]))
-        elif t[0] == "get" and want:
+        elif t[0] == "get" and want and t[2] != "string":
             if want[0] == "z" and l != "rc=0 z=%d" % want[1]: return "%s after set %d: %s" % (c[:60], want[1], l)
             if want[0] == "b" and l != "rc=0 b=%d" % want[1]: return "%s: %s" % (c[:60], l)
             if want[0] == "bits":
@@ -87,9 +91,16 @@ def gen(rng, tier):
     def batch(kd, vals, mk):
         for i in range(0, len(vals), per):
             cmds = ["newini 0"]; obs = [False]
+            grp = [rng.choice([None, b"sec", b"other", b"sec"]) for _ in range(per)]
+            if rng.random() < 0.5:
+                # the file the values are written to exists already and is longer: the same keys with long texts,
+                # saved once before (a second save of the same file must replace it, not overlay it)
+                for j in range(len(vals[i:i + per])):
+                    cmds.append("set 0 string %s %s %s -" % (enc(grp[j]), enc(b"k%d" % j), enc(b"an older, much longer text %d" % j * 2))); obs.append(False)
+                cmds += ["reread 3 0"]; obs.append(False)
             for j, v in enumerate(vals[i:i + per]):
                 k = b"k%d" % j
-                g = rng.choice([None, b"sec", b"other", b"sec"])
+                g = grp[j]
                 cmds.append(mk(kd, g, k, v)); obs.append(False)
                 if rng.random() < 0.25:
                     # a call that is refused must leave the stored value alone
@@ -112,6 +123,10 @@ def gen(rng, tier):
                     cmds2.append(c.replace("set 0 ", "set 2 ", 1)); obs2.append(False)
                 else:
                     cmds2.append(c); obs2.append(True)
+            # the stored text itself, before and after the write/read leg (the typed getters tolerate some trailing junk)
+            for j in range(len(vals[i:i + per])):
+                a = "%s %s -" % (enc(grp[j]), enc(b"k%d" % j))
+                cmds2 += ["get 0 string " + a, "get 1 string " + a]; obs2 += [True, True]
             out.append(Scenario(["newini 2"] + cmds2, [False] + obs2, tags=(kd,)))
     for kd in ("int", "int64", "uint", "uint64"):
         batch(kd, int_values(rng, kd, n * per // 4), lambda kd, g, k, v: "set 0 %s %s %s - %d" % (kd, enc(g), enc(k), v))
